@@ -25,6 +25,9 @@ for sid in sorted(os.listdir(os.path.join(VERIF, "seeded"))):
                 verdict = "inconclusive (exit 2)"
         meta["check_result"] = {"verdict": verdict, "caught_by": caught, "tier": res.get("tier"), "checks": {p: {"exit": v["exit"], "wall_s": v["wall_s"]} for p, v in res["checks"].items()}}
         json.dump(meta, open(os.path.join(d, "meta.json"), "w"), indent=1)
+    if meta.get("thorough_check"):
+        verdict += "; thorough: " + meta["thorough_check"]["verdict"]
+        caught = caught + [c.split(" (")[0] + " [thorough]" for c in meta["thorough_check"].get("caught_by", [])]
     what = (meta.get("what") or "").replace("\n", " ")
     rows.append((sid, meta.get("property", sid.split("-")[0]), "yes" if meta.get("confirmed") else "no", verdict, "; ".join(caught), what[:230] + ("…" if len(what) > 230 else "")))
 with open(os.path.join(VERIF, "seeded", "SUMMARY.md"), "w") as f:
